@@ -107,3 +107,9 @@ def fill(claim, NA):
         "Trusted: z3; AST->LIA translator (validated on concrete timecodes every run; the stamp's regex shape check is stubbed there and executed for real in the E1 part); CrossHair for the finite stream shapes with concrete timecodes.",
         "AST->QF_LIA exact binary64 encoding (z3) + CrossHair symbolic execution over stream shapes",
     )
+    claim(
+        "C16",
+        "Bounded symbolic execution of the public SCCReader.read over roll-up (2/3/4 rows) and paint-on stream shapes (1-3 rows quick, 5 thorough; short/long rows; base rows; single/doubled codes; drop/non-drop; carriage return placement; mode switches): the concatenated caption text equals the transmitted characters in order, each row's text stays together, captions are ordered with start < end and each ends exactly when the next begins.",
+        "Trusted: CrossHair+z3 (finite stream shapes, completeness certified); concrete timecodes (arithmetic: C06).",
+        "CrossHair symbolic execution + z3 over stream-shape selectors",
+    )
